@@ -139,7 +139,7 @@ def build_ct(k_obj, cls, pos, seed, client_version=(3, 3)):
 
 
 def check(case):
-    if case["k"] == "wire":
+    if case["k"] in ("wire", "pmsver"):
         return check_wire(case)
     kname, cls = case["key"], case["cls"]
     k_obj = key(kname)
@@ -241,6 +241,8 @@ def observe(ver, cls, pos, seed, cred_name):
 
 
 def check_wire(case):
+    if case["k"] == "pmsver":
+        return check_pmsver(case)
     ver, cls = case["ver"], case["cls"]
     labels = ["wire", "ver=" + ver, "cls=" + cls]
     control, _ = observe(ver, "valid48", 0, case["seed"] + 1000, case["key"])
@@ -259,6 +261,60 @@ def check_wire(case):
             "class %s: %r  vs control %r" % (cls, obs, control),
             labels=labels)
     return good(nt=cls not in ("valid", "valid48"), labels=labels)
+
+
+def check_pmsver(case):
+    """The version bytes inside a *well-formed* premaster secret: only the
+    version the client offered is acceptable (the negotiated one is
+    tolerated for old clients: either); any other value must be treated
+    exactly like a malformed ciphertext, i.e. the handshake dies at Finished
+    with bad_record_mac although the client used the very premaster it
+    encrypted."""
+    import tlslite.keyexchange as kxm
+    from tlslite.utils.cryptomath import getRandomBytes
+    cmax, smax, pv = tuple(case["cmax"]), tuple(case["smax"]), \
+        tuple(case["pv"])
+    labels = ["pmsver", "c=%s" % sc.VERNAME[cmax], "s=%s" % sc.VERNAME[smax],
+              "pv=%d.%d" % pv]
+    kw = dict(keyExchangeNames=["rsa"], cipherNames=["aes128"],
+              macNames=["sha"])
+    cst = sc.mk_settings(minVersion=(3, 0), maxVersion=cmax, **kw)
+    sst = sc.mk_settings(minVersion=(3, 0), maxVersion=smax, **kw)
+    orig = kxm.RSAKeyExchange.processServerKeyExchange
+
+    def forged(self, srvPublicKey, serverKeyExchange):
+        pm = getRandomBytes(48)
+        pm[0], pm[1] = pv
+        self.encPremasterSecret = srvPublicKey.encrypt(pm)
+        return pm
+    DET.reseed("C11pv", cmax, smax, pv)
+    kxm.RSAKeyExchange.processServerKeyExchange = forged
+    try:
+        p = sc.connect({"settings": cst}, {"cred": "rsa1024",
+                                           "settings": sst})
+    finally:
+        kxm.RSAKeyExchange.processServerKeyExchange = orig
+    neg = min(cmax, smax)
+    srv = describe_exc(p.so.exc) if p.so.exc else p.so.state
+    labels.append("server=" + srv)
+    if pv == cmax:
+        if not p.both_ok:
+            return bad("correct-premaster-version-rejected:%s/%s" % (
+                sc.VERNAME[cmax], sc.VERNAME[smax]), "%r %r" % (p.co, p.so),
+                labels=labels)
+        return good(nt=False, labels=labels)
+    if pv == neg:
+        return good(labels=labels + ["either"])
+    if p.so.ok or p.co.ok:
+        return bad("premaster-version-oracle:offered-%s:negotiated-%s" % (
+            sc.VERNAME[cmax], sc.VERNAME[neg]),
+            "premaster version %r (neither the offered nor the negotiated "
+            "one) was accepted: the handshake completed" % (pv,),
+            labels=labels)
+    if srv != "TLSLocalAlert(bad_record_mac)":
+        return bad("server-behaviour-depends-on-malformation:pmsver",
+                   "server ended with %s" % srv, labels=labels)
+    return good(labels=labels)
 
 
 # ---------------------------------------------------------------------------
@@ -303,6 +359,12 @@ def explicit(tier, seed):
         for pos in rng:
             yield {"k": "fn", "key": kname, "cls": "sep_pos", "pos": pos,
                    "seed": seed}
+    vs = [(3, 0), (3, 1), (3, 2), (3, 3)]
+    for cmax in vs:
+        for smax in vs + [(3, 4)]:
+            for pv in vs + [(3, 4), (2, 0), (3, 255), (0, 0)]:
+                yield {"k": "pmsver", "cmax": list(cmax),
+                       "smax": list(smax), "pv": list(pv)}
     for ver in ("ssl3", "tls10", "tls11", "tls12"):
         for cls in CLASSES:
             if cls in ("len_plus", "len_minus", "ge_n"):
